@@ -18,7 +18,7 @@ ORACLE = ('SHA-256 of every bundle\'s full reply (stored, undo, direct, retValue
           'snapshot are identical in all processes; a bundle that fails must fail with the same exception class everywhere')
 ASSUMPTIONS = ['generated formulas do not iterate over Python sets and use no time/randomness (user-level nondeterminism)',
                'the history is generated against the hash-seed-0 engine; children replay the same concrete user actions']
-BUDGET = {'quick': dict(examples=320, shards=16, max_seconds=55),
+BUDGET = {'quick': dict(examples=400, shards=16, max_seconds=75),
           'thorough': dict(examples=3600, shards=16, max_seconds=1800)}
 SHRINK_BUDGET = {'quick': 30, 'thorough': 200}
 
